@@ -19,10 +19,15 @@ def stateLine (l : Life) : String :=
   match l.phase with
   | .relaying => s!"state live={liveTxt} runs=1 pipes=1 sched=running listed=1"
   | .waiting _ => s!"state live={liveTxt} runs=1 pipes=0 sched=running listed=1"
-  | .released k => s!"state live={liveTxt} runs=0 pipes=0 sched=exited:{k} listed=0"
+  | .released _ => s!"state live={liveTxt} runs=0 pipes=0 sched=exited listed=0"
+
+/-- the TCP handler reports nothing about the session itself: session events are not observable -/
+def observable : Out → Bool
+  | .session _ => false
+  | _ => true
 
 def emit (st : St) (r : Life × List Out) : St × List String :=
-  ({ st with l := r.1 }, (sortOuts r.2).map showOut ++ [stateLine r.1])
+  ({ st with l := r.1 }, (sortOuts (r.2.filter observable)).map showOut ++ [stateLine r.1])
 
 def setFlag (l : List (String × Bool)) (p : String) (b : Bool) : List (String × Bool) := (l.filter (·.1 ≠ p)) ++ [(p, b)]
 
